@@ -94,12 +94,13 @@ Definition agrees_c2 (c : (Z * Z * Z * Z * Z * Z * Z) * option (list econf) * op
   agrees_c (args, res, acc, ch) && agrees_c (args, res2, None, None).
 
 (* --- part D: EngineBuilder.set_epochs / set_duration + build --- *)
-Inductive bobs := ObsOk (l : list econf) (ch : Z) | ObsValueError | ObsRuntimeError.
+(* the class of a rejection is not compared (ValueError of stan_epochs / RuntimeError of the manager) *)
+Inductive bobs := ObsOk (l : list econf) (ch : Z) | ObsRejected.
 Definition bres_agrees (m : bres) (o : bobs) : bool :=
   match m, o with
   | BOk l ch, ObsOk l' ch' => list_eqb econf_eqb l l' && (ch =? ch')
-  | BValueError, ObsValueError => true
-  | BRuntimeError, ObsRuntimeError => true
+  | BValueError, ObsRejected => true
+  | BRuntimeError, ObsRejected => true
   | _, _ => false
   end.
 Definition agrees_bld_epochs (c : list econf * bobs) : bool :=
